@@ -12,6 +12,8 @@ From RV Require Import Model.Sha1.
 From RV Require Import Model.Stun.
 From RV Require Import Gen.IceCandStr.
 From RV Require Import Model.Candidate.
+From RV Require Import Gen.TurnConsts.
+From RV Require Import Model.Turn.
 Import ListNotations.
 Open Scope Z_scope.
 Open Scope bool_scope.
@@ -26,7 +28,14 @@ Inductive case : Set :=
 (* IceCandidate::to_sdp: candidate, lexed output line *)
 | KCandTo (c : cand) (out : list tok)
 (* IceCandidate::from_sdp: lexed input line, result (None = Err) *)
-| KCandFrom (parts : list tok) (r : option cand).
+| KCandFrom (parts : list tok) (r : option cand)
+(* Allocate requests captured from a real TurnClient talking to the harness' scripted server *)
+| KTurnPlain (txid : list Z) (out : list Z)
+| KTurnAuth (txid user realm nonce pass : list Z) (out : list Z)
+| KTurnDestroy (txid user realm nonce pass : list Z) (out : list Z)
+| KProbe (txid : list Z) (out : list Z)
+(* priority of a gathered candidate of the given type (srflx via STUN probe, relay via TURN) *)
+| KPrioT (t : IceCandidateType) (component : Z) (out : Z).
 
 (* ---- equality tests *)
 Definition addr_eqb (a b : addr) : bool :=
@@ -106,6 +115,11 @@ Definition model_out (c : case) : case :=
   | KDec b _ => KDec b (decode b)
   | KCandTo c _ => KCandTo c (to_tokens c)
   | KCandFrom parts _ => KCandFrom parts (from_tokens parts)
+  | KTurnPlain txid _ => KTurnPlain txid (allocate_plain_bytes hmac_sha1 txid)
+  | KTurnAuth txid u r n p _ => KTurnAuth txid u r n p (allocate_auth_bytes hmac_sha1 md5 txid u r n p)
+  | KTurnDestroy txid u r n p _ => KTurnDestroy txid u r n p (destroy_bytes hmac_sha1 md5 txid u r n p)
+  | KProbe txid _ => KProbe txid (probe_bytes hmac_sha1 txid)
+  | KPrioT t c _ => KPrioT t c (priority_for t c)
   end.
 
 Definition check_case (c : case) : bool :=
@@ -118,6 +132,11 @@ Definition check_case (c : case) : bool :=
   | KDec b r => dres_eqb (decode b) r
   | KCandTo c out => toks_eqb (to_tokens c) out
   | KCandFrom parts r => opt_eqb cand_eqb (from_tokens parts) r
+  | KTurnPlain txid out => list_eqb (allocate_plain_bytes hmac_sha1 txid) out
+  | KTurnAuth txid u r n p out => list_eqb (allocate_auth_bytes hmac_sha1 md5 txid u r n p) out
+  | KTurnDestroy txid u r n p out => list_eqb (destroy_bytes hmac_sha1 md5 txid u r n p) out
+  | KProbe txid out => list_eqb (probe_bytes hmac_sha1 txid) out
+  | KPrioT t c out => priority_for t c =? out
   end.
 
 Fixpoint bad_from (i : Z) (cs : list case) : list Z :=
